@@ -183,6 +183,15 @@ fn obs_case(sink: &mut Sink, id: &str, unique: bool, asyncf: bool, r: &mut Rng, 
 }
 
 /// vector crates and adapters: only the invariants (imbl shares and copies chunks internally)
+/// a count / limit stream that is a queue filled by the test
+struct QStream(std::rc::Rc<std::cell::RefCell<std::collections::VecDeque<usize>>>);
+impl Stream for QStream {
+    type Item = usize;
+    fn poll_next(self: Pin<&mut Self>, _: &mut Context<'_>) -> Poll<Option<usize>> {
+        match self.0.borrow_mut().pop_front() { Some(v) => Poll::Ready(Some(v)), None => Poll::Pending }
+    }
+}
+
 fn vec_case(sink: &mut Sink, id: &str, r: &mut Rng, steps: usize) {
     sink.case(id);
     reset_registry();
@@ -199,6 +208,17 @@ fn vec_case(sink: &mut Sink, id: &str, r: &mut Rng, steps: usize) {
         let mut chain = Some(chain);
         let (_iv4, dyn_tail) = ov.subscribe().tail(2);
         let mut dyn_tail = Some(Box::pin(dyn_tail));
+        // a Skip whose count is not known yet (it buffers what comes in until the count stream speaks), a dynamic Head with an
+        // initial limit, a FilterMap that builds new values, a SortBy: the other adapter kinds and constructors
+        let counts = std::rc::Rc::new(std::cell::RefCell::new(std::collections::VecDeque::new()));
+        let dskip = ov.subscribe().dynamic_skip(QStream(counts.clone()));
+        let mut dskip = Some(Box::pin(dskip));
+        let limits = std::rc::Rc::new(std::cell::RefCell::new(std::collections::VecDeque::new()));
+        let (_iv6, dhead) = ov.subscribe().dynamic_head_with_initial_value(2, QStream(limits.clone()));
+        let (_iv7, dhead_fm) = (_iv6, dhead).filter_map(|t: Tok| if t.v % 3 != 0 { Some(Tok::new(t.v + 100)) } else { None });
+        let mut dhead_fm = Some(Box::pin(dhead_fm));
+        let (_iv8, sby) = eyeball_im_util::vector::VectorSubscriberExt::batched(ov.subscribe()).sort_by(|a: &Tok, b: &Tok| b.v.cmp(&a.v));
+        let mut sby = Some(Box::pin(sby));
         let mut kept: Vec<VectorDiff<Tok>> = vec![];
         let (_f, wk) = flag_waker();
         for _ in 0..steps {
@@ -240,7 +260,19 @@ fn vec_case(sink: &mut Sink, id: &str, r: &mut Rng, steps: usize) {
                     if r.chance(3, 4) { t.commit(); }
                 }
                 15 if r.chance(1, 4) => {
-                    match r.below(4) { 0 => plain = None, 1 => batched = None, 2 => chain = None, _ => dyn_tail = None }
+                    match r.below(7) { 0 => plain = None, 1 => batched = None, 2 => chain = None, 3 => dyn_tail = None, 4 => dskip = None, 5 => dhead_fm = None, _ => sby = None }
+                }
+                // the count / limit streams speak
+                16 => { if r.chance(1, 2) { counts.borrow_mut().push_back(r.below(4)); } else { limits.borrow_mut().push_back(r.below(5)); } }
+                // out-of-range calls (they panic; the rejected value is the library's to drop), on the vector and in a transaction
+                17 if r.chance(1, 2) => {
+                    let k = r.below(3);
+                    match r.below(4) {
+                        0 => { let _ = catch(|| ov.insert(len + 1 + k, Tok::new(v))); }
+                        1 => { let _ = catch(|| { ov.set(len + k, Tok::new(v)); }); }
+                        2 => { let mut t = ov.transaction(); let _ = catch(|| t.insert(len + 1 + k, Tok::new(v))); t.commit(); }
+                        _ => { let mut t = ov.transaction(); t.push_back(Tok::new(v)); let _ = catch(|| { t.set(len + 1 + k, Tok::new(v)); }); if r.chance(1, 2) { t.commit(); } }
+                    }
                 }
                 // a new subscription replaces an old one: from the current (usually non-empty) contents, in every conversion
                 15 => match r.below(4) {
@@ -256,6 +288,9 @@ fn vec_case(sink: &mut Sink, id: &str, r: &mut Rng, steps: usize) {
                         if let Some(b) = batched.as_mut() { let _ = b.as_mut().poll_next(&mut cx); }
                         if let Some(c) = chain.as_mut() { let _ = c.as_mut().poll_next(&mut cx); }
                         if let Some(t) = dyn_tail.as_mut() { let _ = t.as_mut().poll_next(&mut cx); }
+                        if let Some(t) = dskip.as_mut() { let _ = t.as_mut().poll_next(&mut cx); }
+                        if let Some(t) = dhead_fm.as_mut() { if let Poll::Ready(Some(d)) = t.as_mut().poll_next(&mut cx) { if r.chance(1, 4) { kept.push(d); } } }
+                        if let Some(t) = sby.as_mut() { let _ = t.as_mut().poll_next(&mut cx); }
                     }
                 }
             }
@@ -269,6 +304,7 @@ fn vec_case(sink: &mut Sink, id: &str, r: &mut Rng, steps: usize) {
             let mut cx = Context::from_waker(&wk);
             if let Some(p) = plain.as_mut() { while let Poll::Ready(Some(_)) = p.as_mut().poll_next(&mut cx) {} }
             if let Some(c) = chain.as_mut() { while let Poll::Ready(Some(_)) = c.as_mut().poll_next(&mut cx) {} }
+            if let Some(c) = dskip.as_mut() { while let Poll::Ready(Some(_)) = c.as_mut().poll_next(&mut cx) {} }
         }
     }
     let live = LIVE.with(|l| l.borrow().len());
